@@ -1,7 +1,7 @@
 """C05 -- configuration is honoured identically in every carrier, for every linter (part 1: parsing, loading,
 per-linter config classes, enabled switches, raise-set of the orchestrator)."""
 from pyvc.api import (contract, lemma, Any, Assoc, Int, Bool, Str, Dict, SeqOf, Rec, Opt, TupleOf, implies, call, mk, ih,
-                      opaque, reveal, dict_put, is_str_list, is_any_list, as_str_list, as_list)
+                      opaque, reveal, dict_put, as_items, is_str_list, is_any_list, as_str_list, as_list)
 from contracts._common import ViolationT, PathT
 
 CP = "src/core/config_parser.py::"
@@ -26,7 +26,7 @@ def norm_fold(items: Assoc(Any), acc: Dict) -> Dict:
                                                                            normalized_key=Str), returns=Dict)
 class NormalizeConfigKeys:
     def ensures_fold(config, result):
-        return result == norm_fold(config, {})
+        return result == norm_fold(as_items(config), {})
 
     def inv0(config, normalized, rest):
         return norm_fold(config, {}) == norm_fold(rest, normalized)
